@@ -25,7 +25,7 @@ LEVEL = "fault_enumeration"
 TIERS = {
     "quick": {"runs": 640, "batch": 1, "timeout_s": 600, "crash_points": "subset", "shrink_budget": 60,
               "abort_den": 6},
-    "thorough": {"runs": 12000, "batch": 1, "timeout_s": 1800, "crash_points": "all", "shrink_budget": 120,
+    "thorough": {"runs": 4000, "batch": 1, "timeout_s": 1800, "crash_points": "all", "shrink_budget": 120,
                  "abort_den": 3},
 }
 RULE = ("Scenario = (user-object kind x how tensors are held x which require grad x function kind "
